@@ -15,9 +15,17 @@ code -> spec: seeded random update directories (more names, up to 6 files with r
 PkgUpdates_Trace recomputes Commands(name) for every name and reports Raised, Names_missing,
 Names_extra, Chain_incomplete, Chain_extra, Chain_order.
 
+EAPI 8     : directories with free-form file names.  PMS leaves the order of such files open, so no
+              particular order is demanded; but the files form A sequence: the same directory is read
+              under three directory-listing orders (the order of what listdir_files returns is chosen
+              by the driver: sorted, reversed, shuffled) and the results must be identical
+              (Listing_order_leaks) and equal to the reference under some order of the files
+              (No_file_order_explains).  The quarter-named directories are read under a shuffled
+              listing as well.
+
 Carve-outs: lines with leading/trailing whitespace (the code logs an error but still applies
-them — the property does not say which) are not generated; EAPI 8 directories (arbitrary file
-names, order left open by PMS) are not judged.
+them — the property does not say which) are not generated; which order EAPI 8 files apply in is
+not judged (only that it is a function of the directory's content).
 """
 import os
 import shutil
@@ -100,7 +108,7 @@ class Bench:
         order = list(files)
         r_.shuffle(order)
         for f in order:
-            with open(os.path.join(d, f"{f['q']}Q-{f['y']}"), "w") as fh:
+            with open(os.path.join(d, f.get("name") or f"{f['q']}Q-{f['y']}"), "w") as fh:
                 fh.write("".join(t + "\n" for t in f["text"]))
         return d
 
@@ -134,7 +142,22 @@ def run(ck):
     from pkgcore.ebuild import pkg_updates
     from pkgcore.ebuild.eapi import get_eapi
 
-    eapi = get_eapi("7")
+    eapi7, eapi8 = get_eapi("7"), get_eapi("8")
+    # the order in which a directory lists its files is not under anybody's control: the real
+    # listdir_files is kept, only the order of what it returns is chosen here per read
+    real_listdir = pkg_updates.listdir_files
+    listing = {"order": "sorted", "rng": rng(4242)}
+
+    def listdir_in_some_order(path):
+        found = sorted(real_listdir(path))
+        if listing["order"] == "reversed":
+            found.reverse()
+        elif listing["order"] == "random":
+            listing["rng"].shuffle(found)
+        return found
+
+    pkg_updates.listdir_files = listdir_in_some_order
+    FREE_NAMES = ["2021.1", "2021.2", "2020.10", "2020.9", "moves", "zz-last", "A-first", "10", "9", "pkgmove_2019", "Q1", "b.2"]
     ck.rule = ("one call of the real read_updates per update directory; directories enumerated by TLC (all line "
                "sequences x file cuts) plus seeded random ones; non-trivial = distinct directory with at least one move "
                "whose target has a later accepted command or that is redundant (a chain or a redundancy is exercised)")
@@ -147,23 +170,28 @@ def run(ck):
     r_ = rng(42)
     events, cases = [], []
 
-    def execute(files, names, present=True, vary=None):
+    def execute(files, names, present=True, vary=None, free=False, orders=("random",)):
+        """free: an EAPI 8 directory (free-form file names, taken from the files' "name"); orders: the
+        directory-listing orders under which the same directory is read."""
         if not present:
             files = []  # the updates directory does not exist at all
         for f in files:
-            f["text"] = [render(x, vary) for x in f["lines"]]
+            if "text" not in f:
+                f["text"] = [render(x, vary) for x in f["lines"]]
         d = bench.write(files, r_, present)
-        ev = dict(tid=len(events), i=0, names=names, files=[dict(y=f["y"], q=f["q"], lines=f["lines"]) for f in files],
-                  raised=False, got=[])
+        ev = dict(tid=len(events), i=0, eapi8=free, names=names, files=[dict(y=f["y"], q=f["q"], lines=f["lines"]) for f in files],
+                  raised=False, gots=[])
         exc = ""
         try:
-            ev["got"] = project(pkg_updates.read_updates(d, eapi))
+            for o in orders:
+                listing["order"] = o
+                ev["gots"].append(project(pkg_updates.read_updates(d, eapi8 if free else eapi7)))
         except Exception as e:  # judged (Raised)
-            ev["raised"], exc = True, f"{type(e).__name__}: {e}"
+            ev["raised"], exc, ev["gots"] = True, f"{type(e).__name__}: {e}", [[]]
         bench.drop(d)
         events.append(ev)
-        cases.append(dict(files=[dict(y=f["y"], q=f["q"], lines=f["lines"], text=f["text"]) for f in files], names=names,
-                          present=present, exc=exc))
+        cases.append(dict(files=[dict(y=f["y"], q=f["q"], name=f.get("name", ""), lines=f["lines"], text=f["text"]) for f in files],
+                          names=names, present=present, exc=exc, free=free, orders=list(orders)))
         ck.count()
         flat = [x for f in sorted(files, key=lambda f: (f["y"], f["q"])) for x in f["lines"]]
         srcs = [x["a"] for x in flat if x["k"] != "bad"]
@@ -172,7 +200,8 @@ def run(ck):
 
     if ck.replay_case:
         d = ck.replay_case["detail"]["case"]
-        execute([dict(y=f["y"], q=f["q"], lines=f["lines"]) for f in d["files"]], d["names"], d.get("present", True))
+        execute([dict(y=f["y"], q=f["q"], name=f.get("name", ""), lines=f["lines"], text=f["text"]) for f in d["files"]], d["names"],
+                d.get("present", True), free=d.get("free", False), orders=tuple(d.get("orders", ("random",))))
     else:
         # 1. the mechanism against the sequential reference
         ml = ck.pick(3, 4)
@@ -191,10 +220,22 @@ def run(ck):
             execute([dict(y=f["y"], q=f["q"], lines=list(f["lines"])) for f in c["files"]], names)
         ck.sample(dict(direction="spec->code", files=cases[len(cases) // 2]["files"]))
         # 3. code -> spec
-        for k in range(ck.pick(1000, 15000)):
+        for k in range(ck.pick(800, 15000)):
             nm = ["a", "b", "c", "d", "e", "f"][: r_.randint(2, 6)]
             execute(random_dir(r_, nm), nm, present=r_.random() > 0.02, vary=r_)
-        ck.sample(dict(direction="code->spec", files=cases[-1]["files"], got=events[-1]["got"]))
+        ck.sample(dict(direction="code->spec", files=cases[-1]["files"], got=events[-1]["gots"][0]))
+        # 4. EAPI 8 directories: free-form file names, every directory read under three listing orders
+        def as_free(files):
+            picked = r_.sample(FREE_NAMES, len(files))
+            return [dict(y=0, q=0, name=nm, lines=f["lines"]) for nm, f in zip(picked, files)]
+
+        multi = [c for c in exported if len(c["files"]) >= 2]
+        for c in r_.sample(multi, min(len(multi), ck.pick(600, 12000))):
+            execute(as_free([dict(lines=list(f["lines"])) for f in c["files"]]), names, free=True, orders=("sorted", "reversed", "random"))
+        for k in range(ck.pick(200, 4000)):
+            nm = ["a", "b", "c", "d"][: r_.randint(2, 4)]
+            execute(as_free(random_dir(r_, nm)[:4]), nm, vary=r_, free=True, orders=("sorted", "reversed", "random"))
+        ck.sample(dict(direction="EAPI 8 directory", files=cases[-1]["files"], got=events[-1]["gots"][0]))
 
     verdicts = []
     for lo in range(0, len(events), 50000):
@@ -204,7 +245,8 @@ def run(ck):
         chrono = sorted(c["files"], key=lambda f: (f["y"], f["q"]))
         badkinds = sorted({x["s1"] for f in c["files"] for x in f["lines"] if x["k"] == "bad"})
         ck.violation(v["clause"], dict(
-            case=c, exc=c["exc"].split(":")[0], got=e["got"], nfiles=len(c["files"]), bad_kinds=",".join(badkinds),
+            case=c, exc=c["exc"].split(":")[0], gots=e["gots"], nfiles=len(c["files"]), bad_kinds=",".join(badkinds), eapi8=c["free"],
             name_order_is_chronological=[f"{f['q']}Q-{f['y']}" for f in chrono] == sorted(f"{f['q']}Q-{f['y']}" for f in chrono),
         ))
+    pkg_updates.listdir_files = real_listdir
     shutil.rmtree(bench.root, ignore_errors=True)
